@@ -47,4 +47,11 @@ OBLIGATIONS = {
         "C08.taucrit_poly_default", "C08.taucrit_poly_pos", "C08.cache_fresh", "C08.cache_same_step",
         "C08.cache_transparent", "RealInst.sqrtLaws",
     ],
+    "C20": [
+        "C20.Tplus_eq", "C20.Tminus_eq", "C20.mem_preimagesPlus", "C20.mem_preimagesMinus", "C20.preimages_count",
+        "C20.preimagesPlus_nodup", "C20.preimagesMinus_nodup", "C20.Tplus_isometry", "C20.clamp_piles_up",
+        "C20.uniform_step_sq", "C20.uniform_second_moment", "C20.normal_step_sq", "C20.normal_step_sq_single",
+        "C20.velocity_step_sq", "C20.labolle_const_reduces", "C20.sampleK_capped", "C20.substeps_cover",
+        "C20.zCoarse_ge", "C20.zCoarse_near", "RealInst.sqrtLaws",
+    ],
 }
